@@ -62,6 +62,9 @@ def gen_params(rng, model):
         sizes = [2, 2, 1]
         rng.shuffle(sizes)
     slates = {b: ["%s%d" % (b.lower(), i + 1) for i in range(s)] for b, s in zip(blocs, sizes)}
+    if rng.random() < 0.3:
+        pools = {"A": ["Al", "Bo", "Cy"], "B": ["Charlotte", "Dominique St-Pierre", "Ev"], "C": ["x", "Maximilian", "Zoë Q"]}
+        slates = {b: pools[b][:s] for b, s in zip(blocs, sizes)}
     p0 = rng.choice([0.3, 0.4, 0.5, 0.6, 0.7])
     if nb == 1:
         props = {blocs[0]: 1.0}
@@ -154,6 +157,9 @@ def generate(run_seed, tier):
     cands = ["c%d" % i for i in range(n)]
     case = {"kind": "S", "model": model, "gen": model, "candidates": cands, "N": rng.choice([1, 5, 40, 200]), "by_bloc": False, "seed": seed,
             "defaults": rng.random() < 0.3, "dim": rng.randint(1, 3)}
+    if not case["defaults"] and model != "OneDimSpatial":
+        # user-supplied distance functions, one of them asymmetric: the documented argument order is distance(voter, candidate)
+        case["distance"] = rng.choice([None, "l1", "directional", "directional"])
     if model == "ClusteredSpatial":
         per = [rng.randint(0, 30) for _ in cands]
         if sum(per) == 0:
@@ -593,7 +599,8 @@ def execute_spatial(case, trace):
         exp = {}
         skipped = 0
         for v in vpos:
-            d = {c: float(np.linalg.norm(v - p)) for c, p in cpos.items()}
+            dist = GP.DISTANCES.get(case.get("distance")) or (lambda a, b: float(np.linalg.norm(a - b)))
+            d = {c: dist(v, p) for c, p in cpos.items()}
             if len(set(d.values())) < len(d):
                 skipped += 1
                 continue
